@@ -247,3 +247,42 @@ Theorem drain_full_capacity maxc ops s t n :
   run_from (step maxc) s (repeat (Arrive t 1) n) = map (fun i => [200; Z.of_nat i + 1]) (seq 0 n).
 Proof. intros H Hn. rewrite (drained_is_init _ _ _ H). rewrite admits_from; cbn; [reflexivity| |lia].
   split; [constructor|tauto]. Qed.
+
+(* ---------- non-interference between sources (C14, connection limiter) ---------- *)
+Definition op_tok (o : op) : option Z := match o with Arrive t _ => Some t | Finish t _ _ => Some t | BadSource => None end.
+Definition is_tok (t : Z) (o : op) : bool := match op_tok o with Some t' => t' =? t | None => false end.
+
+(* the outputs a source observes in an interleaved history: those of its own operations *)
+Fixpoint outs_of (t maxc : Z) (s : st) (ops : list op) : list (list Z) :=
+  match ops with
+  | [] => []
+  | o :: r => let '(s', out) := step maxc s o in
+              if is_tok t o then out :: outs_of t maxc s' r else outs_of t maxc s' r
+  end.
+
+Lemma wfmap_step maxc s o : wfmap (cs s) -> wfmap (cs (fst (step maxc s o))).
+Proof. intros H. destruct o as [t a|t a p|]; cbn [step].
+  - unfold acquire. destruct (maxc <=? get (cs s) t); cbn [fst cs]; [assumption|apply wfmap_set; assumption].
+  - cbn [fst release cs]. apply wfmap_set; assumption.
+  - assumption. Qed.
+
+Theorem conn_noninterference maxc t : forall ops s s',
+  wfmap (cs s) -> wfmap (cs s') -> get (cs s) t = get (cs s') t ->
+  outs_of t maxc s ops = run_from (step maxc) s' (filter (is_tok t) ops).
+Proof. induction ops as [|o ops IH]; intros s s' Hw Hw' Hg; [reflexivity|].
+  cbn [outs_of filter]. destruct (step maxc s o) as [s1 out] eqn:E.
+  assert (Hw1 : wfmap (cs s1)) by (pose proof (wfmap_step maxc s o Hw) as W; rewrite E in W; exact W).
+  unfold is_tok. destruct o as [t0 a|t0 a p|]; cbn [op_tok].
+  - destruct (Z.eqb_spec t0 t) as [->|Hne].
+    + cbn [run_from]. cbn [step] in E |- *. unfold acquire in *. rewrite <- Hg.
+      destruct (maxc <=? get (cs s) t); inv E.
+      * f_equal. apply IH; assumption.
+      * cbn [cs]. rewrite !get_set_same by (apply Hw || apply Hw'). f_equal.
+        apply IH; cbn [cs]; try (apply wfmap_set; assumption). rewrite !get_set_same by (apply Hw || apply Hw'). reflexivity.
+    + apply IH; try assumption. cbn [step] in E. unfold acquire in E. destruct (maxc <=? get (cs s) t0); inv E; [assumption|].
+      cbn [cs]. rewrite get_set_other by assumption. assumption.
+  - destruct (Z.eqb_spec t0 t) as [->|Hne].
+    + cbn [run_from step]. cbn [step] in E. inv E. f_equal.
+      apply IH; cbn [release cs]; try (apply wfmap_set; assumption). rewrite !get_set_same by (apply Hw || apply Hw'). congruence.
+    + apply IH; try assumption. cbn [step] in E. inv E. cbn [release cs]. rewrite get_set_other by assumption. assumption.
+  - cbn [step] in E. inv E. apply IH; assumption. Qed.
